@@ -229,6 +229,12 @@ Proof.
     + rewrite le_enc_len. eapply sep_sub_r; [apply Hsx; left; reflexivity|]. unfold within. cbn. lia.
 Qed.
 
+Lemma load64_range m a v : mem_bytes m -> load64 m a = Ok v -> 0 <= v < W64.
+Proof.
+  intros Hm H. unfold load64 in H. destruct (load m a 8) as [bs|] eqn:E; cbn [bind] in H; [|discriminate]. inversion H. subst v.
+  pose proof (le_dec_range bs (load_bytes_ok _ _ _ _ Hm E)) as R. rewrite (load_len _ _ _ _ E) in R. exact R.
+Qed.
+
 (* ---- the field recursion ---- *)
 Fixpoint sup_f (f : field) : Prop :=
   match f with FIov | FAIov => False | FArr _ efs => sup_fs efs | FNest fs => sup_fs fs | _ => True end
@@ -321,8 +327,8 @@ Lemma loop_rt efs esz : Pfs efs -> 0 < esz -> fields_wf esz efs -> sup_fs efs ->
 Proof.
   intros HP Hesz Hwf Hsup Hlay Hps. induction k as [|k IH]; intros st e se Own c0 vss we Fe w' HR Hc0 Wc Hrd B Hnb.
   - cbn [rd_elems] in Hrd. inversion Hrd. subst vss we Fe. exists st, []. split; [reflexivity|].
-    split; [apply step_post_refl; [exact HR|rewrite len_nil; lia]|]. exists [], []. split; [reflexivity|]. intros r [].
-  - rewrite Nat2Z.inj_succ, Z.mul_succ_l in *. set (K := Z.of_nat k) in *. assert (HK : 0 <= K) by (unfold K; lia).
+    split; [apply step_post_refl; [exact HR|cbn; lia]|]. exists [], []. split; [reflexivity|]. intros r [].
+  - assert (HS : Z.of_nat (S k) * esz = Z.of_nat k * esz + esz) by lia. rewrite HS in Wc. rewrite HS in B. rewrite HS. clear HS. set (K := Z.of_nat k) in *. assert (HK : 0 <= K) by (unfold K; lia).
     assert (HKe : 0 <= K * esz) by nia.
     cbn [rd_elems] in Hrd.
     destruct (rd_fs efs ms se) as [[[v1 w1] F1]|] eqn:E1; cbn [bind] in Hrd; [|discriminate].
@@ -369,3 +375,205 @@ Proof.
         unfold within. cbn [fst snd]. lia.
       * right. right. exists c. split; [apply in_or_app; right; exact Hc|exact Wx].
 Qed.
+
+Lemma rt_all : (forall f, Pf f) /\ (forall fs, Pfs fs).
+Proof.
+  apply field_fields_mut.
+  - (* FFixed *) intros n avail st a sa Own c0 val wf Fs w' Hwf _ _ _ HR Hc0 Wc Hrd Heq Hnb.
+    cbn [rd_f] in Hrd. destruct (load ms sa n) as [bs|] eqn:Lbs; cbn [bind] in Hrd; [|discriminate].
+    inversion Hrd. subst val wf Fs. cbn [eq_f] in Heq. cbn [app] in HR.
+    exists st, []. split; [reflexivity|]. split; [apply step_post_refl; [exact HR|apply len_nonneg]|].
+    exists [], [(a, n)]. split; [cbn [rd_f]; rewrite Heq, Lbs; reflexivity|].
+    intros r [<-|[]]. right. left. exists (a, n). split; [left; reflexivity|apply within_refl].
+  - (* FBuf *) apply leaf_buf; try reflexivity; cbn [field_wf eq_f]; auto.
+  - (* FStr *) apply leaf_buf; try reflexivity; cbn [field_wf eq_f]; auto.
+  - (* FFixBuf *) intros n. apply leaf_buf; try reflexivity; cbn [field_wf eq_f]; auto.
+  - (* FABuf *) apply leaf_buf; try reflexivity; cbn [field_wf eq_f]; auto.
+  - (* FArr *) intros esz efs IH avail st a sa Own c0 val wf Fs w' [Hw16 [Hesz Hwfe]] Hsup [Hpse Hlaye] _ HR Hc0 Wc Hrd Heq Hnb.
+    cbn [sup_f] in Hsup. cbn [eq_f] in Heq. cbn [rd_f] in Hrd. cbn [aranges_f].
+    destruct (load64 ms sa) as [ps|] eqn:Lps; cbn [bind] in Hrd; [|discriminate].
+    destruct (load64 ms (sa + 8)) as [ns|] eqn:Lns; cbn [bind] in Hrd; [|discriminate].
+    destruct (load ms ps ns) as [bs|] eqn:Lbs; cbn [bind] in Hrd; [|discriminate].
+    assert (Wa : within (a, 16) c0) by (unfold within in *; cbn [fst snd] in *; lia).
+    destruct (fields_active efs) eqn:Ea.
+    2:{ (* elements without fields: like a buffer *)
+      inversion Hrd. subst val wf Fs. clear Hrd. rewrite len2, len_nil in Hnb.
+      destruct (d_buffer_rt st a Own c0 ms sa ps ns bs w' HR Hc0 Wa Lps Lns Lbs ltac:(rewrite Lns; exact Heq) ltac:(lia))
+        as [st' [new [p [Hdb [Hfl [HR' [Hx [Hc [Hn [L1 [L2 [L3 [Hnew Hfr]]]]]]]]]]]]].
+      assert (Hdf : d_field cfg_final (FArr esz efs) st a = Ok st').
+      { rewrite d_field_arr, Hdb. cbn [bind]. rewrite L1. cbn [bind]. rewrite L2. cbn [bind].
+        destruct (ns / esz =? 0) eqn:Ez; [reflexivity|]. apply Z.eqb_neq in Ez.
+        destruct (p =? 0) eqn:Ep; [|rewrite Ea; reflexivity]. apply Z.eqb_eq in Ep.
+        destruct Hnew as [[-> _]|[_ [Hp _]]]; [rewrite Z.div_0_l in Ez by lia; congruence|congruence]. }
+      exists st', new. split; [exact Hdf|]. split.
+      { unfold step_post. rewrite len2, len_nil. split; [exact Hfl|]. split; [exact HR'|]. split; [exact Hx|]. split; [exact Hc|]. split; [lia|exact Hfr]. }
+      exists bs, [(a, 16); (p, ns)]. split.
+      { cbn [rd_f]. rewrite L1. cbn [bind]. rewrite L2. cbn [bind]. rewrite L3. cbn [bind]. rewrite Ea. reflexivity. }
+      intros r [<-|[<-|[]]].
+      - right. left. exists (a, 16). split; [left; reflexivity|apply within_refl].
+      - destruct Hnew as [[-> ->]|[-> _]]; [left; cbn; lia|]. right. right. exists (p, ns). split; [left; reflexivity|apply within_refl]. }
+    (* array of messages *)
+    destruct (rd_elems (rd_fs efs ms) (Z.to_nat (ns / esz)) ps esz) as [[[vs we] Fe]|] eqn:Ee; cbn [bind] in Hrd; [|discriminate].
+    inversion Hrd. subst val wf Fs. clear Hrd. rewrite len2 in Hnb. pose proof (len_nonneg Fe) as HFe.
+    rewrite <- app_assoc in HR.
+    destruct (d_buffer_rt st a Own c0 ms sa ps ns bs (we ++ w') HR Hc0 Wa Lps Lns Lbs ltac:(rewrite Lns; exact Heq) ltac:(lia))
+      as [st1 [new [p [Hdb [Hfl [HR1 [Hx [Hc [Hn [L1 [L2 [L3 [Hnew Hfr]]]]]]]]]]]]].
+    assert (Hdf : d_field cfg_final (FArr esz efs) st a = d_loop efs esz (Z.to_nat (ns / esz)) st1 p).
+    { rewrite d_field_arr, Hdb. cbn [bind]. rewrite L1. cbn [bind]. rewrite L2. cbn [bind].
+      destruct (ns / esz =? 0) eqn:Ez; [apply Z.eqb_eq in Ez; rewrite Ez; reflexivity|]. apply Z.eqb_neq in Ez.
+      destruct (p =? 0) eqn:Ep; [|rewrite Ea; reflexivity]. apply Z.eqb_eq in Ep.
+      destruct Hnew as [[-> _]|[_ [Hp _]]]; [rewrite Z.div_0_l in Ez by lia; congruence|congruence]. }
+    destruct Hnew as [[Hns0 Hnew0]|[Hnew1 [Hp0 Hns0]]].
+    { (* empty array *)
+      subst ns new. rewrite Z.div_0_l in * by lia. cbn [Z.to_nat rd_elems] in Ee. inversion Ee. subst vs we Fe.
+      exists st1, []. split; [rewrite Hdf; reflexivity|]. split.
+      { unfold step_post. unfold len. cbn [length]. split; [exact Hfl|]. split; [exact HR1|]. split; [exact Hx|]. split; [exact Hc|]. split; [lia|exact Hfr]. }
+      exists (bs ++ []), [(a, 16); (p, 0)]. split.
+      { cbn [rd_f]. rewrite L1. cbn [bind]. rewrite L2. cbn [bind]. rewrite L3. cbn [bind]. rewrite Ea. rewrite Z.div_0_l by lia. reflexivity. }
+      intros r [<-|[<-|[]]]; [|left; cbn; lia].
+      right. left. exists (a, 16). split; [left; reflexivity|apply within_refl]. }
+    subst new. set (k := Z.to_nat (ns / esz)) in *.
+    pose proof HR1 as [Hinv1 [_ [_ [HpO1 [_ HvO1]]]]].
+    pose proof (inv_wf _ _ Hinv1) as Hwf1.
+    assert (Hns : 0 <= ns).
+    { pose proof (load64_range _ _ _ (inv_bytes _ _ Hinv1) L2). lia. }
+    assert (Hk : Z.of_nat k * esz <= ns).
+    { unfold k. rewrite Z2Nat.id by (apply Z.div_pos; lia). pose proof (Z.mul_div_le ns esz Hesz). lia. }
+    assert (Hin1 : In (p, ns) (Own ++ [(p, ns)])) by (apply in_or_app; right; left; reflexivity).
+    assert (Wp : within (p, Z.of_nat k * esz) (p, ns)) by (unfold within; cbn [fst snd]; lia).
+    destruct (loop_rt efs esz IH Hesz Hwfe Hsup Hlaye Hpse k st1 p ps (Own ++ [(p, ns)]) (p, ns) vs we Fe w' HR1 Hin1 Wp Ee)
+      as [st2 [new2 [Hd2 [SP2 [w2 [F2 [Hr2 Hf2]]]]]]].
+    { eapply blk_sub; [apply (blk_of_loads _ _ _ _ _ bs Hwf1 ms_wf L3 Lbs)|exact Hk]. }
+    { lia. }
+    destruct SP2 as [Hfl2 [HR2 [Hx2 [Hc2 [Hn2 Hfr2]]]]].
+    assert (Hsp : sep c0 (p, ns)).
+    { apply psep_app in HpO1. destruct HpO1 as [_ [_ Hxs]]. apply Hxs; [exact Hc0|left; reflexivity]. }
+    assert (Hfr2' : forall x j, within (x, j) c0 -> load (d_mem st2) x j = load (d_mem st1) x j).
+    { intros x j Wx. apply Hfr2; [exists c0; split; [apply in_or_app; left; exact Hc0|exact Wx]|].
+      intros r [<-|[]]. apply (within_sep2 _ c0 _ (p, ns) Wx Wp Hsp). }
+    exists st2, ((p, ns) :: new2). split; [rewrite Hdf; exact Hd2|]. split.
+    { unfold step_post. split; [congruence|]. split; [rewrite <- app_assoc in HR2; exact HR2|]. split; [eapply ext_trans; eauto|].
+      split; [congruence|]. split; [rewrite len2; lia|].
+      intros x j Hcx Hs. destruct Hcx as [c [Hcc Wx]]. rewrite Hfr2.
+      - apply Hfr; [exists c; split; [exact Hcc|exact Wx]|exact Hs].
+      - exists c. split; [apply in_or_app; left; exact Hcc|exact Wx].
+      - intros r [<-|[]]. apply psep_app in HpO1. destruct HpO1 as [_ [_ Hxs]].
+        apply (within_sep2 _ c _ (p, ns) Wx Wp). apply Hxs; [exact Hcc|left; reflexivity]. }
+    assert (Hv2 : validb (lens (d_mem st2)) p ns = true).
+    { eapply validb_ext; [exact Hx2|]. apply (HvO1 (p, ns) Hin1). }
+    destruct (load_valid _ _ _ Hv2) as [bs2 Lbs2].
+    exists (bs2 ++ w2), ((a, 16) :: (p, ns) :: F2). split.
+    { cbn [rd_f]. unfold load64. rewrite (Hfr2' a 8) by (unfold within in *; cbn [fst snd] in *; lia).
+      rewrite (Hfr2' (a + 8) 8) by (unfold within in *; cbn [fst snd] in *; lia).
+      fold (load64 (d_mem st1) a). fold (load64 (d_mem st1) (a + 8)). rewrite L1. cbn [bind]. rewrite L2. cbn [bind].
+      rewrite Lbs2. cbn [bind]. rewrite Ea. fold k. rewrite Hr2. reflexivity. }
+    intros r [<-|[<-|Hr]].
+    + right. left. exists (a, 16). split; [left; reflexivity|apply within_refl].
+    + right. right. exists (p, ns). split; [left; reflexivity|apply within_refl].
+    + destruct (Hf2 r Hr) as [H|[[s [[<-|[]] Ws]]|[c [Hcc Wx]]]]; [left; exact H| |].
+      * right. right. exists (p, ns). split; [left; reflexivity|eapply within_trans; eauto].
+      * right. right. exists c. split; [right; exact Hcc|exact Wx].
+  - (* FIov *) intros avail st a sa Own c0 val wf Fs w' _ [].
+  - (* FAIov *) intros avail st a sa Own c0 val wf Fs w' _ [].
+  - (* FNest *) intros fs IH avail st a sa Own c0 val wf Fs w' Hwf Hsup Hlay Hps HR Hc0 Wc Hrd Heq Hnb.
+    cbn [field_wf sup_f lay_f aranges_f eq_f rd_f d_field] in *.
+    destruct (rd_fs fs ms sa) as [[[vs w1] F1]|] eqn:E1; cbn [bind] in Hrd; [|discriminate].
+    inversion Hrd. subst val wf Fs. clear Hrd.
+    destruct (IH avail st a sa Own c0 vs w1 F1 w' Hwf Hsup Hlay Hps HR Hc0 Wc E1 Heq Hnb) as [st' [new [Hd [SP [w2 [F [Hr Hf]]]]]]].
+    exists st', new. split; [exact Hd|]. split; [exact SP|]. exists w2, F. split; [rewrite Hr; reflexivity|exact Hf].
+  - (* FMap *) intros vsz vfs _ avail st a sa Own c0 val wf Fs w' Hw32 _ _ Hps HR Hc0 Wc Hrd [Heq1 Heq2] Hnb.
+    cbn [field_wf aranges_f rd_f d_field] in *.
+    destruct (load64 ms sa) as [ip|] eqn:Lip; cbn [bind] in Hrd; [|discriminate].
+    destruct (load64 ms (sa + 8)) as [inn|] eqn:Linn; cbn [bind] in Hrd; [|discriminate].
+    destruct (load ms ip inn) as [ibs|] eqn:Libs; cbn [bind] in Hrd; [|discriminate].
+    destruct (load64 ms (sa + 16)) as [bp|] eqn:Lbp; cbn [bind] in Hrd; [|discriminate].
+    destruct (load64 ms (sa + 24)) as [bn|] eqn:Lbn; cbn [bind] in Hrd; [|discriminate].
+    destruct (load ms bp bn) as [bbs|] eqn:Lbbs; cbn [bind] in Hrd; [|discriminate].
+    inversion Hrd. subst val wf Fs. clear Hrd. rewrite !len2, len_nil in Hnb. rewrite <- app_assoc in HR.
+    assert (Wa : within (a, 16) c0) by (unfold within in *; cbn [fst snd] in *; lia).
+    assert (Wb : within (a + 16, 16) c0) by (unfold within in *; cbn [fst snd] in *; lia).
+    destruct (d_buffer_rt st a Own c0 ms sa ip inn ibs (bbs ++ w') HR Hc0 Wa Lip Linn Libs ltac:(rewrite Linn; exact Heq1) ltac:(lia))
+      as [st1 [new1 [p1 [Hdb1 [Hfl1 [HR1 [Hx1 [Hc1 [Hn1 [L1 [L2 [L3 [Hnew1 Hfr1]]]]]]]]]]]]].
+    assert (Heq2' : load64 (d_mem st1) (a + 16 + 8) = load64 ms (sa + 16 + 8)).
+    { replace (a + 16 + 8) with (a + 24) by lia. replace (sa + 16 + 8) with (sa + 24) by lia. rewrite Lbn, <- Heq2.
+      unfold load64. rewrite Hfr1; [reflexivity| |].
+      - exists c0. split; [exact Hc0|]. unfold within in *. cbn [fst snd] in *. lia.
+      - intros r [<-|[]]. unfold sep. cbn [fst snd]. lia. }
+    replace (sa + 24) with (sa + 16 + 8) in Lbn by lia.
+    destruct (d_buffer_rt st1 (a + 16) (Own ++ new1) c0 ms (sa + 16) bp bn bbs w' HR1 ltac:(apply in_or_app; left; exact Hc0) Wb Lbp Lbn Lbbs Heq2' ltac:(lia))
+      as [st2 [new2 [p2 [Hdb2 [Hfl2 [HR2 [Hx2 [Hc2 [Hn2 [M1 [M2 [M3 [Hnew2 Hfr2]]]]]]]]]]]]].
+    exists st2, (new1 ++ new2). split; [rewrite Hdb1; cbn [bind]; exact Hdb2|]. split.
+    { unfold step_post. rewrite !len2, len_nil. split; [congruence|]. split; [rewrite app_assoc; exact HR2|]. split; [eapply ext_trans; eauto|].
+      split; [congruence|]. split; [lia|].
+      intros x j Hcx Hs. destruct Hcx as [c [Hcc Wx]]. rewrite Hfr2.
+      - apply Hfr1; [exists c; split; [exact Hcc|exact Wx]|]. intros r [<-|[]]. apply Hs. left. reflexivity.
+      - exists c. split; [apply in_or_app; left; exact Hcc|exact Wx].
+      - intros r [<-|[]]. apply Hs. right. left. reflexivity. }
+    pose proof HR1 as [_ [_ [_ [HpO1 _]]]].
+    assert (Hfr2' : forall x j, within (x, j) (a, 16) -> load (d_mem st2) x j = load (d_mem st1) x j).
+    { intros x j Wx. apply Hfr2; [exists c0; split; [apply in_or_app; left; exact Hc0|eapply within_trans; eauto]|].
+      intros r [<-|[]]. unfold within, sep in *. cbn [fst snd] in *. lia. }
+    assert (L3' : load (d_mem st2) p1 inn = Ok ibs).
+    { destruct Hnew1 as [[-> _]|[Hn1' _]]; [rewrite load_nonpos in * by lia; exact L3|]. rewrite <- L3. apply Hfr2.
+      - exists (p1, inn). split; [apply in_or_app; right; rewrite Hn1'; left; reflexivity|apply within_refl].
+      - intros r [<-|[]]. apply psep_app in HpO1. destruct HpO1 as [_ [_ Hxs]]. apply sep_sym.
+        eapply within_sep; [exact Wb|]. apply Hxs; [exact Hc0|rewrite Hn1'; left; reflexivity]. }
+    exists (ibs ++ bbs), [(a, 16); (p1, inn); (a + 16, 16); (p2, bn)]. split.
+    { unfold load64 at 1 2. rewrite (Hfr2' a 8) by (unfold within; cbn [fst snd]; lia).
+      rewrite (Hfr2' (a + 8) 8) by (unfold within; cbn [fst snd]; lia).
+      fold (load64 (d_mem st1) a). fold (load64 (d_mem st1) (a + 8)). rewrite L1. cbn [bind]. rewrite L2. cbn [bind].
+      rewrite L3'. cbn [bind]. rewrite M1. cbn [bind]. replace (a + 24) with (a + 16 + 8) by lia. rewrite M2. cbn [bind].
+      rewrite M3. reflexivity. }
+    intros r [<-|[<-|[<-|[<-|[]]]]].
+    + right. left. exists (a, 16). split; [left; reflexivity|apply within_refl].
+    + destruct Hnew1 as [[-> ->]|[-> _]]; [left; cbn; lia|]. right. right. exists (p1, inn). split; [left; reflexivity|apply within_refl].
+    + right. left. exists (a + 16, 16). split; [right; left; reflexivity|apply within_refl].
+    + destruct Hnew2 as [[-> ->]|[-> _]]; [left; cbn; lia|]. right. right. exists (p2, bn). split; [apply in_or_app; right; left; reflexivity|apply within_refl].
+  - (* FNil *) intros sz st base sbase Own c0 vals wf Fs w' _ _ _ _ HR _ _ Hrd _ _.
+    cbn [rd_fs] in Hrd. inversion Hrd. subst vals wf Fs. cbn [app] in HR.
+    exists st, []. split; [reflexivity|]. split; [apply step_post_refl; [exact HR|cbn; lia]|].
+    exists [], []. split; [reflexivity|]. intros r [].
+  - (* FCons *) intros off f IHf r IHr sz st base sbase Own c0 vals wf Fs w' [Ho [Hwf Hwr]] [Hsf Hsr] [Hlf Hlr] Hps HR Hc0 Wc Hrd [Heqf Heqr] Hnb.
+    cbn [aranges_fs] in *. apply psep_app in Hps. destruct Hps as [Hpf [Hpr Hpx]].
+    cbn [rd_fs] in Hrd.
+    destruct (rd_f f ms (sbase + off)) as [[[v1 w1] F1]|] eqn:E1; cbn [bind] in Hrd; [|discriminate].
+    destruct (rd_fs r ms sbase) as [[[vs w2] F2]|] eqn:E2; cbn [bind] in Hrd; [|discriminate].
+    inversion Hrd. subst vals wf Fs. clear Hrd. rewrite <- app_assoc in HR. rewrite len_app in Hnb.
+    pose proof (len_nonneg F1) as HF1. pose proof (len_nonneg F2) as HF2.
+    assert (W1 : within (base + off, sz - off) c0) by (unfold within in *; cbn [fst snd] in *; lia).
+    destruct (IHf (sz - off) st (base + off) (sbase + off) Own c0 v1 w1 F1 (w2 ++ w') Hwf Hsf Hlf Hpf HR Hc0 W1 E1 Heqf ltac:(lia))
+      as [st1 [new1 [Hd1 [SP1 [w21 [F1' [Hr1 Hf1]]]]]]].
+    destruct SP1 as [Hfl1 [HR1 [Hx1 [Hc1 [Hn1 Hfr1]]]]].
+    assert (HS1 : forall s, In s (aranges_f f (base + off)) -> within s c0).
+    { intros s Hs. eapply within_trans; [apply (proj1 aranges_within f (sz - off) (base + off) Hwf s Hs)|exact W1]. }
+    assert (HS2 : forall s, In s (aranges_fs r base) -> within s c0).
+    { intros s Hs. eapply within_trans; [apply (proj2 aranges_within r sz base Hwr s Hs)|exact Wc]. }
+    destruct (IHr sz st1 base sbase (Own ++ new1) c0 vs w2 F2 w' Hwr Hsr Hlr Hpr HR1 ltac:(apply in_or_app; left; exact Hc0) Wc E2)
+      as [st2 [new2 [Hd2 [SP2 [w22 [F2' [Hr2 Hf2]]]]]]].
+    { apply (proj2 (eq_stable (d_mem st) (d_mem st1) ms) r base sbase); [|exact Heqr].
+      intros s Hs. eapply frame_agree; [exact Hfr1|exists c0; split; [exact Hc0|apply HS2; exact Hs]|].
+      intros q Hq. apply sep_sym. apply Hpx; auto. }
+    { lia. }
+    destruct SP2 as [Hfl2 [HR2 [Hx2 [Hc2 [Hn2 Hfr2]]]]].
+    exists st2, (new1 ++ new2). split; [rewrite d_fields_cons, Hd1; cbn [bind]; exact Hd2|]. split.
+    { unfold step_post. split; [congruence|]. split; [rewrite app_assoc; exact HR2|]. split; [eapply ext_trans; eauto|].
+      split; [congruence|]. split; [rewrite len_app; lia|].
+      intros x j Hcx Hs. destruct Hcx as [c [Hcc Wx]]. rewrite Hfr2.
+      - apply Hfr1; [exists c; split; [exact Hcc|exact Wx]|]. intros q Hq. apply Hs. apply in_or_app. left. exact Hq.
+      - exists c. split; [apply in_or_app; left; exact Hcc|exact Wx].
+      - intros q Hq. apply Hs. apply in_or_app. right. exact Hq. }
+    destruct HR1 as [_ [_ [_ [HpO1 _]]]].
+    assert (St : forall x, In x F1' -> agree (d_mem st1) (d_mem st2) x).
+    { apply (stab _ _ Own new1 F1' (aranges_f f (base + off)) (aranges_fs r base) c0 Hf1 Hfr2 HpO1 Hc0 HS1 HS2). intros s1 s2 H1 H2. apply Hpx; auto. }
+    exists (w21 ++ w22), (F1' ++ F2'). split.
+    { cbn [rd_fs]. rewrite (proj1 (rd_stable _ _) f (base + off) _ Hr1 St). cbn [bind]. rewrite Hr2. reflexivity. }
+    intros x Hx. apply in_app_or in Hx. destruct Hx as [Hx|Hx].
+    + destruct (Hf1 x Hx) as [H|[[s [Hs Ws]]|[c [Hcc Wx]]]]; [left; exact H| |].
+      * right. left. exists s. split; [apply in_or_app; left; exact Hs|exact Ws].
+      * right. right. exists c. split; [apply in_or_app; left; exact Hcc|exact Wx].
+    + destruct (Hf2 x Hx) as [H|[[s [Hs Ws]]|[c [Hcc Wx]]]]; [left; exact H| |].
+      * right. left. exists s. split; [apply in_or_app; right; exact Hs|exact Ws].
+      * right. right. exists c. split; [apply in_or_app; right; exact Hcc|exact Wx].
+Qed.
+
+End RT.
